@@ -260,6 +260,8 @@ class Pki:
         """{'user':..,'title':..,'signed_by': label|'digest'|'none'|'nolocator', 'name_user': ...}"""
         name = Name.from_str(f'/site/article/{spec.get("name_user", spec["user"])}/{spec["title"]}'
                              + (f'/{spec["last"]}' if spec.get('last') else ''))
+        if spec.get('empty_name'):
+            name = []               # a Data packet named "/" (it answers an Interest for the root prefix)
         sb = spec.get('signed_by', self.signer_for_author(spec['user']))
         if sb == 'none':
             signer = None
@@ -828,7 +830,9 @@ def generate(rng, seed, tier='quick'):
                 pkt['name_user'] = 'mallory'
             elif z < 0.31:
                 pkt['hmac_forgery'] = True
-            elif z < 0.36:
+            elif z < 0.33:
+                pkt['empty_name'] = True
+            elif z < 0.38:
                 pkt['odd_locator'] = rng.choice(['params-digest', 'type0'])
                 pkt['odd_at'] = rng.choice(['end', 'mid'])
                 if rng.random() < 0.6 and 'anchor_is' not in op and 'anchor_forged' not in op:
